@@ -13,3 +13,4 @@ import GarbleVerif.Props.C04
 import GarbleVerif.Props.C10
 import GarbleVerif.Props.C15
 import GarbleVerif.Props.C03
+import GarbleVerif.Props.C09
